@@ -133,10 +133,7 @@ func c20R2(c *Ctx) {
 		}
 		if res[0] == ssa.Value(schemaP) {
 			// explicit schema returned as is, on the schema != nil edge
-			if guardedBy(ret, false, func(cond ssa.Value) bool {
-				b, ok := cond.(*ssa.BinOp)
-				return ok && b.Op == token.EQL && b.X == ssa.Value(schemaP) && isNilConst(b.Y)
-			}) != nil {
+			if nilnessAt(ret, schemaP) == 2 {
 				explicitOK = true
 			}
 			return
@@ -145,10 +142,7 @@ func c20R2(c *Ctx) {
 			flag := call.Call.Args[2]
 			if b, ok := flag.(*ssa.BinOp); ok && b.Op == token.EQL && b.X == ssa.Value(idP) {
 				if s, _ := constString(b.Y); s == "error" {
-					if guardedBy(ret, true, func(cond ssa.Value) bool {
-						bb, ok := cond.(*ssa.BinOp)
-						return ok && bb.Op == token.EQL && bb.X == ssa.Value(schemaP) && isNilConst(bb.Y)
-					}) != nil {
+					if nilnessAt(ret, schemaP) == 1 {
 						inferredOK = true
 					}
 				}
@@ -272,15 +266,20 @@ func c20R3(c *Ctx) {
 }
 
 var c20FileAccessAllowed = map[string]string{
-	"(*loadfile.fileCache).LoadContext":      "the one place where the engine reads context files",
-	"builtinfunctions.getReadFileFunction$1": "the readFile built-in (documented)",
-	"cmd/arcaflow.main":                      "command-line tool: reads the input file named on the command line",
-	"cmd/arcaflow.loadYamlFile":              "command-line tool: reads the configuration file",
+	"(*loadfile.fileCache).LoadContext": "the one place where the engine reads context files",
+	"cmd/arcaflow.main":                 "command-line tool: reads the input file named on the command line",
+	"cmd/arcaflow.loadYamlFile":         "command-line tool: reads the configuration file",
 }
 
 // C20.R4 file access is confined and context-relative.
 func c20R4(c *Ctx) {
 	const rule = "C20.R4"
+	handlerID := map[*ssa.Function]string{}
+	for _, bf := range c.builtinFns() {
+		if bf.ssaHandler != nil {
+			handlerID[bf.ssaHandler] = bf.id
+		}
+	}
 	c.explain("C20.R4 the os file-access functions are called only by the tabled functions; NewFileCacheUsingContext joins every relative name with filepath.Abs(rootDir) and stores that absolute path as the cache's root directory")
 	n := 0
 	cnt := map[string]int{}
@@ -302,7 +301,20 @@ func c20R4(c *Ctx) {
 			n++
 			cnt[c.fnName(fn)]++
 			key := fmt.Sprintf("fileaccess:%s#%d", c.fnName(fn), cnt[c.fnName(fn)])
-			why, ok := c20FileAccessAllowed[c.fnName(fn)]
+			why, ok := c.tabledS(c20FileAccessAllowed, fn, "")
+			if !ok {
+				// the handler of the built-in function `readFile` (wherever that handler lives), documented to read a file
+				for f := fn; f != nil; {
+					if handlerID[f] == "readFile" {
+						why, ok = "the readFile built-in (documented)", true
+					}
+					s := ownerSite[f]
+					if s == nil {
+						break
+					}
+					f = s.Parent()
+				}
+			}
 			c.verdict(ok, rule, key, c.instrPos(r.I), "tabled: "+why, c.fnName(fn)+" accesses the file system ("+nm+") outside the tabled functions: the result would depend on more than the contents of the context directory")
 		})
 	}
@@ -347,7 +359,7 @@ func c20R4(c *Ctx) {
 				return
 			}
 			fv := fieldAddrVar(fa)
-			if fv == nil || fv.Name() != "rootDir" {
+			if fv == nil || fieldName(fv) != "rootDir" {
 				return
 			}
 			nStore++
@@ -453,7 +465,7 @@ func c20R7(c *Ctx) {
 	}
 	osF := c.field(pkgWorkflow, "Workflow", "OutputSchema")
 	n := 0
-	eachInstr(fn, func(r instrRef) {
+	c.eachInstrLogical(fn, func(r instrRef) {
 		call, ok := r.I.(*ssa.Call)
 		if !ok || call.Common().StaticCallee() != inferF || len(call.Call.Args) < 3 {
 			return
